@@ -338,6 +338,18 @@ def _program(rng, *, n_state=(1, 5), n_control=(0, 3), n_calib=(0, 3), n_sensor=
         # string-typed expressions would create plain symbols, so they are switched off here
         defn["symbol_assumptions"] = rng.choice(["real", "real_finite"])
         defn["model_as_text"] = []
+        if rng.random() < 0.6 and state:
+            # with real symbols |.| is differentiable away from 0: quadratic-drag style terms dt * a * |b|
+            # in an update and |b| in a reading
+            tgt = rng.choice(state)
+            inner = rng.choice([E.S(rng.choice(state)), ["sub", E.S(rng.choice(state)), gen_leaf(rng, state + control, 0.3)]])
+            defn["model"][tgt] = ["sub", defn["model"][tgt],
+                                  ["mul", E.S(defn["dt"]), ["mul", gen_leaf(rng, state, 0.3), ["abs", inner]]]]
+            if defn["sensors"] and rng.random() < 0.7:
+                sn = rng.choice(sorted(defn["sensors"]))
+                rn = rng.choice(sorted(defn["sensors"][sn]))
+                defn["sensors"][sn][rn] = ["add", defn["sensors"][sn][rn], ["abs", E.S(rng.choice(state))]]
+            defn["has_abs"] = True
     if int_calibration and calib and rng.random() < 0.3 and state:
         # a calibration map made of Python ints only (encoder counts, scale factors): products and powers of
         # calibration values are then integer arithmetic, exact in Python and far beyond 2**63 here
